@@ -180,6 +180,7 @@ func (fs *Filespace) Writer(destPath string) (writer filesystem.Writer, err erro
 		destNodeName string
 		dir          *Dir
 		file         *File
+		handler      *FileHandler
 	)
 	if destPath, err = varutil.ReduceAbsPath(destPath); err != nil {
 		return nil, err
@@ -190,21 +191,25 @@ func (fs *Filespace) Writer(destPath string) (writer filesystem.Writer, err erro
 	if dir, err = mkdirAllNodes(fs.root, destDirPath, filesystem.DefaultUnixDirMode); err != nil {
 		return nil, err
 	}
-	if file, err = fs.writerFile(dir, destPath, destNodeName); err != nil {
+	if file, handler, err = fs.writerFile(dir, destPath, destNodeName); err != nil {
 		return nil, err
 	}
-	// the file's data lock is taken after the directory lock has been released: a
-	// goroutine that holds an open handle must not block writers of sibling files
-	verifPoint("writer.filelock", destPath)
-	handler := NewFileHandler(file)
+	if handler == nil {
+		// the data lock of an existing file is taken after the directory lock has been released:
+		// a goroutine that holds an open handle must not block writers of sibling files
+		verifPoint("writer.filelock", destPath)
+		handler = NewFileHandler(file)
+	}
 	// a writer replaces the old content (the handler holds the data lock)
 	file.time = time.Now()
 	file.data = []byte{}
 	return handler, nil
 }
 
-// writerFile finds or creates the file node for a writer under the directory lock
-func (fs *Filespace) writerFile(dir *Dir, destPath, destNodeName string) (file *File, err error) {
+// writerFile finds or creates the file node for a writer under the directory lock.
+// A new file is locked before it is added to the directory (nobody else can hold
+// its lock yet), so that no reader sees it while it is still empty.
+func (fs *Filespace) writerFile(dir *Dir, destPath, destNodeName string) (file *File, handler *FileHandler, err error) {
 	var (
 		node os.FileInfo
 		ok   bool
@@ -213,12 +218,17 @@ func (fs *Filespace) writerFile(dir *Dir, destPath, destNodeName string) (file *
 	defer dir.Unlock()
 	if node, err = dir.getNode(destNodeName); err != nil {
 		file = NewFile(destNodeName, filesystem.DefaultUnixFileMode, time.Now(), []byte{})
-		return file, dir.addNode(file)
+		handler = NewFileHandler(file)
+		if err = dir.addNode(file); err != nil {
+			handler.Close()
+			return nil, nil, err
+		}
+		return file, handler, nil
 	}
 	if file, ok = node.(*File); !ok {
-		return nil, goaterr.Errorf("Node %s must be a file", destPath)
+		return nil, nil, goaterr.Errorf("Node %s must be a file", destPath)
 	}
-	return file, nil
+	return file, nil, nil
 }
 
 // Reader return a file node reader
